@@ -623,6 +623,7 @@ func (x *c20X) defOf(p *c20Pkg, obj types.Object) (rhs ast.Expr, isRange bool, o
 						}
 						if o := p.info.Defs[id]; o != nil && nd.Type != nil {
 							p.defs[o].declType = nd.Type
+							p.defs[o].zeroDecl = i >= len(nd.Values)
 						}
 					}
 				case *ast.RangeStmt:
@@ -644,6 +645,7 @@ func (x *c20X) defOf(p *c20Pkg, obj types.Object) (rhs ast.Expr, isRange bool, o
 }
 
 type c20Def struct {
+	zeroDecl bool // `var x T` without a value: starts as the zero value (nil for pointers)
 	declType ast.Expr
 	rhs      ast.Expr
 	isRange  bool
@@ -2279,6 +2281,8 @@ func c20Report(o *vOut, res *c20Result) {
 	}
 	// --- (iii) joined goroutine hand-offs
 	c20ReportHandoffs(o, x)
+	// --- (iv) totality of what the shutdown paths format for logs / events
+	c20ReportTotality(o, x)
 	for k, v := range x.stats {
 		o.stat(k, v)
 	}
